@@ -320,6 +320,11 @@ fn hdr_case(t: &[&str]) -> String {
             }
             Err(e) => {
                 out.push_str(&format!(" err {}", errname(&e)));
+                // stop-after-error: the iterator must be exhausted now
+                match it.next() {
+                    Ok(None) => {}
+                    _ => return "iter-continues-after-error-mismatch".into(),
+                }
                 break;
             }
         }
